@@ -9,7 +9,7 @@ from common import Cmat, Cx, R, Rmat, cfl, fl, flmat, max_rel_err
 
 from common import wiring_pre_build as pre_build  # noqa: E402,F401
 
-LEAN_MODULES = ["PyomaVerif.Props.C01", "PyomaVerif.Props.WiringRun", "PyomaVerif.Props.C01C11", "PyomaVerif.Props.C01E2E", "PyomaVerif.Props.C01Stored", "PyomaVerif.Props.WiringCalls", "PyomaVerif.Props.C01Table", "PyomaVerif.Props.C03Table"]
+LEAN_MODULES = ["PyomaVerif.Props.C01", "PyomaVerif.Props.WiringRun", "PyomaVerif.Props.C01C11", "PyomaVerif.Props.C01E2E", "PyomaVerif.Props.C01Stored", "PyomaVerif.Props.WiringCalls", "PyomaVerif.Props.C01Table", "PyomaVerif.Props.C03Table", "PyomaVerif.Props.C01TableLegacy"]
 THEOREMS = [
     # the exact sequence of core-routine calls of the run()/mpe() body and the exact set of parameters bound at each (regenerated call table)
     "PV.WiringCalls.C12_ssidat_run_calls",
@@ -76,9 +76,30 @@ THEOREMS = [
     "PV.C03Table.C03_e2e_table",
     "PV.C03Table.C03_columnFilled",
     "PV.C03Table.Ex.table",
+    # depth round (w18): the LEGACY routine ssi.SSI as a list model (`legacySSI`: Nch, the loop with step, slice clipping,
+    # recorded pinv) composed with ssiPoles -> table-level end-to-end theorems; step >= 2 as coded (IndexError)
+    "PV.Poles.legacyLists_spec",
+    "PV.Poles.ssiPoles_step_never_ok",
+    "PV.Poles.ssiPoles_step_indexError",
+    "PV.C01TableLegacy.legacySSI_get",
+    "PV.C01TableLegacy.ssiEigArgs_legacy",
+    "PV.C01TableLegacy.C01_e2e_cov_table_legacy",
+    "PV.C01TableLegacy.C01_e2e_dat_table_legacy",
+    "PV.C01TableLegacy.C01_step_indexError_fast",
+    "PV.C01TableLegacy.C01_step_indexError_legacy",
+    "PV.C01TableLegacy.C01_step_never_ok_fast",
+    "PV.C01TableLegacy.C01_step_ok_only_boundary",
+    "PV.C01TableLegacy.C01_step_column_mislabel",
+    "PV.C01TableLegacy.Ex.table",
+    "PV.C01TableLegacy.ExDat.table",
+    "PV.C01TableLegacy.ExStep.fast_3_2",
+    "PV.C01TableLegacy.ExStep.legacy_3_2",
+    "PV.C01TableLegacy.ExStep.step_boundary",
 ]
 RULE = (
-    "correspondence: ssi.SSI_fast (also its list-building loop with step 1..3), ssi.SSI, ssi.ac2mp and ssi.SSI_poles as one model function "
+    "correspondence: ssi.SSI_fast (also its list-building loop with step 1..3), ssi.SSI (also as ONE model function `legacySSI`: Nch, the loop "
+    "with step 0..3, ordmax beyond the recorded factors incl. the ValueError of a tall H; its lists fed to SSI_poles with the same step: "
+    "IndexError from both for ordmax > step >= 2, also through SSIcov/SSIdat.run), ssi.ac2mp and ssi.SSI_poles as one model function "
     "(table VALUES cell by cell incl. Lambds, NaN pattern, shapes, step != 1 incl. the exception class, the matrices handed to "
     "eig, Fn_cov/Xi_cov cells with calc_unc) vs the Lean model, the LAPACK results "
     "(svd, qr, inv, pinv, eig) recorded by wrapping the numpy/scipy entry points in the harness process and handed to the "
@@ -268,6 +289,95 @@ def _poles_case(ctx, ssi, stream, Obs, A, C, ordmax, dt, step, key, unc=None):
     ctx.corr(stream, bool(ok), inp, None, None, key)
 
 
+def _legacy_lists_case(ctx, ssi, H, br, ordmax, step, key):
+    """ssi.SSI(H, br, ordmax, step) against the model function `legacySSI` (driver op ssi_legacy_lists): the exception class,
+    the number of list entries, every shape, every value of A (rounding of the product pinv·Obs[Nch:]) and of C.  Returns the
+    real lists (None if the call raised)."""
+    svds, pinvs = [], []
+    try:
+        with record(np.linalg, "svd", svds), record(np.linalg, "pinv", pinvs):
+            A, C = ssi.SSI(H, br, ordmax, step)
+        raised = None
+    except (ValueError, IndexError, ZeroDivisionError) as e:
+        A = C = None
+        raised = type(e).__name__
+    if not svds:
+        ctx.skipped += 1
+        return None
+    U, SIG, _Vt = svds[0][1]
+    P = [np.asarray(o) for (_a, o) in pinvs]
+    m = ctx.model("ssi_legacy_lists", U=Rmat(U), sq=[R(v) for v in np.sqrt(SIG)], pinv=[Rmat(x) if x.size else [] for x in P],
+                  br=br, ordmax=ordmax, step=step)
+    inp = {"H": H.tolist(), "br": br, "ordmax": ordmax, "step": step}
+    if raised is not None or "raises" in m:
+        ctx.count(f"legacy_lists_raises_{raised}")
+        ctx.corr("ssi.SSI[lists,step]", m.get("raises") == raised, inp, m.get("raises"), raised, key + ("raises", raised))
+        return None
+    ok = len(m["A"]) == len(A) == len(P) and len(m["C"]) == len(C)
+    for k in range(len(A)):
+        if not ok:
+            break
+        ok = tuple(m["shapesA"][k]) == A[k].shape and tuple(m["shapesC"][k]) == C[k].shape
+        if ok and A[k].size:
+            n_ = A[k].shape[0]
+            Obs_k = (U[:, :k * step] * np.sqrt(SIG)[:k * step]) if k * step <= len(SIG) else None
+            mag = np.abs(C[k]).max() if Obs_k is None else np.abs(Obs_k).max()
+            tol = 1e-12 + 1e-13 * n_ * np.abs(P[k]).max() * mag * H.shape[0] / max(np.abs(A[k]).max(), 1e-300)
+            ok = max_rel_err(np.array(flmat(m["A"][k])).reshape(A[k].shape), A[k]) <= tol
+            ok = ok and max_rel_err(np.array(flmat(m["C"][k])).reshape(C[k].shape), C[k]) <= 1e-12
+    ctx.corr("ssi.SSI[lists,step]", bool(ok), inp, None, None, key)
+    return A, C
+
+
+def _step_crash_stream(ctx, ssi, H, Y, ref, br, method, ordmax, dt):
+    """step >= 2 as coded.  SSI_fast / SSI build lists with ONE entry per multiple of `step`; SSI_poles indexes them by ORDER.
+    For ordmax > step (and for 1 <= ordmax < step) the real SSI_poles and the model `ssiPoles` must BOTH end in IndexError
+    (theorems C01_step_indexError_fast / _legacy, C01_step_ok_only_boundary); for ordmax == step both return (the order-`step` poles sit in column 1) and the cells
+    agree.  The same through the class (SSIcov / SSIdat with step >= 2): run() raises IndexError."""
+    rng = ctx.rng
+    step = rng.choice([2, 2, 3])
+    om = rng.choice([step - 1, step, step + 1, max(step, min(ordmax, step + 2)), max(step, ordmax)])
+    if om > min(H.shape) - 1:
+        ctx.skipped += 1
+        return
+    expect = "IndexError" if om != step else None  # C01_step_ok_only_boundary: returns only for ordmax == step
+    for routine in ("fast", "legacy"):
+        if routine == "fast":
+            Obs, A, C, *_ = ssi.SSI_fast(H, br, om, step)
+        else:
+            out = _legacy_lists_case(ctx, ssi, H, br, om, step, ("legacy-step", om, step))
+            if out is None:
+                continue
+            (A, C), Obs = out, None
+        try:
+            ssi.SSI_poles(Obs, A, C, om, dt, step)
+            raised = None
+        except IndexError:
+            raised = "IndexError"
+        ctx.count(f"step_{routine}_{'crash' if raised else 'returns'}")
+        ctx.corr(f"ssi.SSI_poles[{routine} lists,same step]", raised == expect, {"ordmax": om, "step": step}, expect, raised, ("same-step", routine, (om > step) - (om < step)))
+        _poles_case(ctx, ssi, f"ssi.SSI_poles[{routine} lists,same step]", Obs, A, C, om, dt, step, ("same-step-model", routine, om, step))
+    if om > step and rng.random() < 0.5:
+        from pyoma2.algorithms import SSIcov, SSIdat
+        from pyoma2.setup import SingleSetup
+
+        ss = SingleSetup(Y.copy(), fs=1.0 / dt)
+        cls = SSIcov if method == "cov_mm" else SSIdat
+        kw = dict(method="cov_mm") if method == "cov_mm" else {}
+        alg = cls(name="a", br=br, ordmax=om, step=step, ref_ind=list(ref), **kw)
+        ss.add_algorithms(alg)
+        try:
+            ss.run_by_name("a")
+            raised = None
+        except IndexError:
+            raised = "IndexError"
+        except np.linalg.LinAlgError:
+            ctx.skipped += 1
+            return
+        ctx.count(f"class_step_{raised}")
+        ctx.corr("SSI*.run[step>=2]", raised == "IndexError", {"class": cls.__name__, "ordmax": om, "step": step, "br": br}, "IndexError", raised, ("class-step", cls.__name__))
+
+
 def _poles_unc_stream(ctx, ssi):
     """SSI_poles(calc_unc=True): Fn_cov / Xi_cov tables against the model, every cell (generator of C17's correspondence)"""
     import c17
@@ -414,6 +524,14 @@ def correspondence(ctx):
                     okl = okl and max_rel_err(np.array(flmat(ml["C"][kk])).reshape(l, n_), C_s[kk]) <= 1e-12
             ctx.corr("ssi.SSI_fast[lists,step]", bool(okl), {"H": H.tolist(), "br": br, "ordmax": om2, "step": s1}, None, None, ("lists", l, om2, s1))
         _poles_case(ctx, ssi, "ssi.SSI_poles[step]", Obs_s, A_s, C_s, om2, S.dt, s2, ("step", om2, s1, s2))
+        # ---- the legacy routine as ONE model function (Nch, loop with step, clipping of the slices, recorded pinv)
+        _legacy_lists_case(ctx, ssi, H, br, om2, s1, ("legacy-lists", l, om2, s1))
+        if k % 3 == 0:
+            # ordmax beyond the recorded factors (clipped slices; ValueError for a tall H), step = 0 (ValueError of range)
+            _legacy_lists_case(ctx, ssi, H, br, min(H.shape) + rng.randint(0, 2), rng.choice([1, 2]), ("legacy-beyond", H.shape[0] > H.shape[1]))
+            _legacy_lists_case(ctx, ssi, H, br, om2, 0, ("legacy-step0",))
+        # ---- step >= 2, same step in both calls (what the classes do)
+        _step_crash_stream(ctx, ssi, H, Y, ref, br, method, ordmax, S.dt)
         if k == 0:
             ctx.sample({"fn": S.fn.tolist(), "xi": S.xi.tolist(), "channels": l, "ref": ref, "br": br, "method": method, "ordmax": ordmax})
     _poles_unc_stream(ctx, ssi)
